@@ -582,6 +582,15 @@ func (lb *LoadBalancer) IsBackendHealthy(backend *Backend) bool {
 	return isHealthy
 }
 
+// eligible reports whether the backend may be chosen for traffic at the given
+// time: it is healthy, or it was ejected and its unhealthy window has elapsed
+// (IsBackendHealthy then marks it healthy again).
+func (backend *Backend) eligible(now time.Time) bool {
+	backend.Mutex.RLock()
+	defer backend.Mutex.RUnlock()
+	return backend.IsHealthy || (!backend.UnhealthyUntil.IsZero() && now.After(backend.UnhealthyUntil))
+}
+
 // IncrementConnections increments the active connection count for a backend
 func (backend *Backend) IncrementConnections() {
 	atomic.AddInt32(&backend.ActiveConnections, 1)
